@@ -30,6 +30,8 @@ namespace PyatvModel.C01
 inductive Err | notSupported | invalidState
   deriving DecidableEq, Repr
 
+deriving instance DecidableEq for Except
+
 /-- One `Relayer`: priority list, which protocols registered an instance, takeover list. -/
 structure Relayer (P : Type) where
   prio : List P
